@@ -40,6 +40,8 @@ class World(object):
         self.delivered = collections.Counter()    # (msg id, side) -> count
         self.pubs = dict()
         self.port_replies = list()
+        self.rpc_server = dict()      # message index -> side which answers
+        self.rpc_served = set()
 
         for side in self.sides:
             reg = net.Registry()
@@ -71,7 +73,16 @@ class World(object):
 
         # publish the messages (they sit in the FIFOs until delivered)
         for i, (kind, side, fwd, origin) in enumerate(messages):
-            if fwd == 'rpc_req':
+            if fwd == 'rpc_round':
+                # a request which a component of another side answers: the
+                # reply is made by the real Component._handle_rpc_msg()
+                from radical.pilot.messages import RPCRequestMessage
+                msg = RPCRequestMessage(uid='rpc.%d' % i, cmd='c16_test',
+                                        args=[], kwargs={}).as_dict()
+                msg['arg'] = {'id': i}
+                others = [s_ for s_ in self.sides if s_ != side]
+                self.rpc_server[i] = others[0]
+            elif fwd == 'rpc_req':
                 # typed messages as Component.rpc() publishes them (their
                 # class default says fwd=True)
                 from radical.pilot.messages import RPCRequestMessage
@@ -147,8 +158,34 @@ class World(object):
 
     def _app_cb(self, side):
         def cb(topic, msg):
-            self.delivered[(msg['arg']['id'], side)] += 1
+            if msg.get('_msg_type') == 'rpc_res' and 'arg' not in msg:
+                # the reply to request i
+                i = int(str(msg['uid']).split('.')[-1])
+                self.delivered[(('reply', i), side)] += 1
+                return
+            i = msg['arg']['id']
+            self.delivered[(i, side)] += 1
+            if self.rpc_server.get(i) == side and \
+               msg.get('_msg_type') == 'rpc_req' and \
+               (i, side) not in self.rpc_served:
+                self.rpc_served.add((i, side))
+                self._serve_rpc(side, topic, msg)
         return cb
+
+    def _serve_rpc(self, side, topic, msg):
+        from radical.pilot.utils.component import BaseComponent
+        c = BaseComponent.__new__(BaseComponent)
+        c._log  = seams.null()
+        c._prof = seams.null()
+        c._uid  = 'component.%s' % side
+        c._rpc_handlers = {'c16_test': [lambda *a, **k: 1, None]}
+        c._rpc_reqs     = dict()
+        c.publish = lambda ch, m: self.pubs[(side, 'control')].put(
+                                      LOCAL['control'],
+                                      m.as_dict() if hasattr(m, 'as_dict')
+                                      else m)
+        c.control_cb = lambda *a, **k: None
+        c._control_cb(topic, msg)
 
     def enabled(self):
         return self.net.pending()
@@ -168,7 +205,7 @@ class World(object):
         pend = tuple((k, tuple(repr(sorted(m.items(), key=repr))
                                for _, m in self.net.fifos[k]))
                      for k in self.net.pending())
-        return (pend, tuple(sorted(self.delivered.items())))
+        return (pend, tuple(sorted(self.delivered.items(), key=repr)))
 
     def check(self, final):
         n = len(self.sides)
@@ -177,6 +214,8 @@ class World(object):
                 kind, fwd, 'none' if origin is None else
                 'self' if origin == side else
                 'other' if origin in self.sides else 'unknown')
+            if fwd == 'rpc_round':
+                fwd = True
             if isinstance(fwd, str) and fwd.startswith('port'):
                 # relayed with the flag it carries; without one it stays
                 fwd = fwd.endswith(':True')
@@ -202,7 +241,22 @@ class World(object):
                                     'message %d %s: side %s got it %d times, '
                                     'reference %d'
                                     % (i, self.messages[i], s, got, ref[s]))
-        if self.n_deliveries > len(self.messages) * 4 * (n + 1):
+        for i, server in sorted(self.rpc_server.items()):
+            for s in self.sides:
+                got = self.delivered[(('reply', i), s)]
+                if got > 1 or (final and got < 1):
+                    raise Violation('%s|Component._handle_rpc_msg+Session.'
+                                    'crosswire_pubsub|rpc-reply:%s'
+                                    % ('delivered-twice' if got > 1
+                                       else 'not-delivered',
+                                       'requester' if s == self.messages[i][1]
+                                       else 'server' if s == server
+                                       else 'third-side'),
+                                    'request %d from %s answered on %s: the '
+                                    'reply reached side %s %d times'
+                                    % (i, self.messages[i][1], server, s, got))
+        if self.n_deliveries > (len(self.messages) + len(self.rpc_server)) \
+                               * 4 * (n + 1):
             raise Violation('circulation|Session.crosswire_pubsub|-',
                             '%d deliveries for %d messages on %d sides'
                             % (self.n_deliveries, len(self.messages), n))
@@ -235,7 +289,7 @@ def bfs(n_pilots, messages, part):
                 part.violation(v.key, {'what': v.what, 'history': hist},
                                dict(replay, history=[list(k) for k in hist]))
             part.outcome((n_pilots, tuple(messages),
-                          tuple(sorted(w.delivered.items()))))
+                          tuple(sorted(w.delivered.items(), key=repr))))
             continue
         for k in en:
             n_trans += 1
@@ -269,6 +323,9 @@ def message_alphabet(n_pilots):
     for side in sides:
         out.append(('control', side, 'rpc_req', None))
         out.append(('control', side, 'rpc_res', None))
+    # a request published on one side and answered on another
+    for side in sides:
+        out.append(('control', side, 'rpc_round', None))
     # messages entering a pilot through its command port
     for side in sides[1:2]:
         for flag in ('port:none', 'port:False', 'port:True',
@@ -304,6 +361,9 @@ def run(ctx):
             # pairs of messages: interleaved deliveries
             red = [m for m in alpha if m[2] is True or m[3] is not None
                                        or isinstance(m[2], str)]
+            if ctx.quick:
+                # round trips double the messages in flight: singles only
+                red = [m for m in red if m[2] != 'rpc_round']
             for a, b in itertools.product(red, repeat=2):
                 if a[0] == b[0] or ctx.quick is False:
                     _jobs.append((n_pilots, (a, b)))
